@@ -481,6 +481,19 @@ def _find_top_eq(s):
     return None
 
 
+def _split_name_type(s):
+    """`NAME: TYPE` where NAME may contain `<impl at f:1:2: 3:4>`"""
+    depth = 0
+    for i, c in enumerate(s):
+        if c == '<':
+            depth += 1
+        elif c == '>' and not (i > 0 and s[i - 1] in '-='):
+            depth -= 1
+        elif depth == 0 and s.startswith(': ', i):
+            return s[:i], s[i + 2:]
+    return s, ''
+
+
 class Function:
     def __init__(self, name, header, lines, kind='fn'):
         self.name = name          # full printed name (with <impl at ..>)
@@ -588,16 +601,17 @@ class Dump:
                         fn.ret = m.group(3)
                         self.promoted[m.group(1)] = fn
                 else:
-                    m = re.match(r'(const|static)( mut)? (.*?): (.*) = \{$', ln)
+                    m = re.match(r'(const|static)( mut)? (.*) = \{$', ln)
                     if m:
-                        fn = Function(m.group(3), ln, body, kind=m.group(1))
-                        fn.ret = m.group(4)
-                        self.consts[m.group(3)] = fn
+                        nm, ty = _split_name_type(m.group(3))
+                        fn = Function(nm, ln, body, kind=m.group(1))
+                        fn.ret = ty
+                        self.consts[nm] = fn
                 i = j + 1
                 continue
-            m = re.match(r'(const|static)( mut)? (.*?): (.*?) = const (.*);$', ln)
+            m = re.match(r'(const|static)( mut)? (.*?) = const (.*);$', ln)
             if m and not ln.startswith(' '):
-                self.const_inline[m.group(3)] = m.group(5)
+                self.const_inline[_split_name_type(m.group(3))[0]] = m.group(4)
                 i += 1
                 continue
             m = re.match(r'(alloc\d+) \((.*)\) \{(.*)$', ln)
